@@ -132,7 +132,8 @@ def loop_graph_spec(L, order=None):
         # an upstream node that with_entrypoint() excludes: the caller supplies `limit` directly (and x, so the skipped
         # node would be runnable if it were not out of scope)
         pre = {"k": "func", "name": "mk_limit", "params": ["x"], "defaults": {}, "outs": ["limit"], "expr": f"x + {L.get('limit_off', 0)}"}
-        return {"nodes": inner + [pre], "entry": ["b0"]}
+        # entry_set: any non-empty set of body nodes means the same thing - every node of a cycle is downstream of every other
+        return {"nodes": inner + [pre], "entry": list(L.get("entry_set") or ["b0"]), "entry_chain": bool(L.get("entry_chain"))}
     if not L.get("nested"):
         return {"nodes": inner}
     outer = [
